@@ -55,6 +55,12 @@ def gen_cases(tier, seed):
             d["faults"] = {"p": r.choice([0.15, 0.3, 0.6]), "kinds": r.choice([["exc"], ["exc", "value"], ["exc", "base"]])}
             d["max_errors"] = r.choice([0, 0, 1, 3, None])
         out.append(d)
+    for i in range(max(6, n // 8)):
+        # a WIDE plan (dozens of independent calls, few workers): the interrupt finds most calls still queued, under either scheduler
+        s = env.seed_for(seed, ID, tier, "wide", i)
+        r = random.Random(env.seed_for(s, "descriptor"))
+        out.append({"seed": s, "mode": "plain", "wide": True, "n": r.randint(20, 40), "W": r.choice([1, 2, 2, 4]), "sched": ["random", "default"][i % 2],
+                    "observer": r.choice(["none", "rec", "console"]), "tier": tier})
     for i in range(n // 2):
         # the calls in flight when the interrupt arrives FAIL afterwards, within the error budget, with other calls still queued and the
         # random scheduler (sentinels are not prioritised there): the failure handling must not undo the stop
@@ -87,7 +93,13 @@ class RaiseSite:
 
     def __init__(self):
         self.site = None
+        self.unwound_uberjob = False  # the KeyboardInterrupt left at least one frame of uberjob's own code: it WAS delivered to the run
         self.main = threading.main_thread().ident
+
+    def _unwind(self, code, offset, exc):
+        if not self.unwound_uberjob and isinstance(exc, KeyboardInterrupt) and threading.get_ident() == self.main \
+                and "/uberjob/" in code.co_filename.replace("\\", "/"):
+            self.unwound_uberjob = True
 
     def _cb(self, code, offset, exc):
         if self.site is None and isinstance(exc, KeyboardInterrupt) and threading.get_ident() == self.main:
@@ -107,7 +119,11 @@ class RaiseSite:
         try:
             m.use_tool_id(self.TOOL, "vmon-raise-site")
             m.register_callback(self.TOOL, m.events.RAISE, self._cb)
-            m.set_events(self.TOOL, m.events.RAISE)
+            # "delivered to uberjob": the exception left a frame of uberjob's code, was thrown into one (a generator-based context manager), or reached
+            # an exception handler / with-statement clean-up inside one
+            for ev_ in (m.events.PY_UNWIND, m.events.PY_THROW, m.events.EXCEPTION_HANDLED):
+                m.register_callback(self.TOOL, ev_, self._unwind)
+            m.set_events(self.TOOL, m.events.RAISE | m.events.PY_UNWIND | m.events.PY_THROW | m.events.EXCEPTION_HANDLED)
             self.on = True
         except ValueError:
             self.on = False
@@ -118,6 +134,8 @@ class RaiseSite:
             m = sys.monitoring
             m.set_events(self.TOOL, 0)
             m.register_callback(self.TOOL, m.events.RAISE, None)
+            for ev_ in (m.events.PY_UNWIND, m.events.PY_THROW, m.events.EXCEPTION_HANDLED):
+                m.register_callback(self.TOOL, ev_, None)
             m.free_tool_id(self.TOOL)
         return False
 
@@ -194,10 +212,12 @@ class Interrupter:
             if in_qjoin:
                 self.send()
             return
-        if in_qjoin and self.sent_seq is not None and self.resent < 3:
+        delivered = bool(self.raise_site is not None and self.raise_site.unwound_uberjob)
+        if in_qjoin and self.sent_seq is not None and self.resent < 3 and not delivered:
             # The process is quiescent, the signal was delivered, and the caller is parked in queue.join again: CPython
             # raised the KeyboardInterrupt inside a weakref callback / __del__ and dropped it ("Exception ignored in ...").
-            # That is the interpreter's doing, not uberjob's; a user would press Ctrl-C again.
+            # That is the interpreter's doing, not uberjob's; a user would press Ctrl-C again. (Only then: once the KeyboardInterrupt has unwound a frame
+            # of uberjob's own code it was delivered, and a caller that parks in a queue.join AFTERWARDS is judged like any other parked caller.)
             self.resent += 1
             signal.pthread_kill(threading.main_thread().ident, signal.SIGINT)
             return
@@ -542,7 +562,14 @@ def run_case(desc):
 
     if desc["mode"] == "plain":
         def build():
-            ir = irmod.gen_ir(random.Random(seed), desc["n"], rich=True, cfg={"out": "all", "p_unpack": 0.05})
+            if desc.get("wide"):
+                # many calls that are ready from the start: whenever the interrupt comes, most of them are still QUEUED
+                ir = irmod.IR()
+                cs_ = [ir.add("call", fname=f"f{i_ % 5}") for i_ in range(desc["n"])]
+                ir.output = irmod.X("list", [irmod.ref(c_.id) for c_ in cs_])
+                ir.meta["family"] = "independent"
+            else:
+                ir = irmod.gen_ir(random.Random(seed), desc["n"], rich=True, cfg={"out": "all", "p_unpack": 0.05})
             H = rec.Harness(ir, record_args=False)
             plan = uberjob.Plan()
             out = irmod.build(ir, plan, H.make_fn)
